@@ -1,4 +1,5 @@
 import Litep2pVerif.Proofs.Service.KeepAliveReach
+import Litep2pVerif.Proofs.Node.Wiring
 import Litep2pVerif.Generated.Consts
 import Litep2pVerif.Proofs.Conn.Permits
 /-!
@@ -408,3 +409,60 @@ end Litep2pVerif.Props.C09
 #print axioms Litep2pVerif.Props.C09.primary_secondary
 #print axioms Litep2pVerif.Props.C09.inbound_negotiation_holds_connection
 #print axioms Litep2pVerif.Props.C09.half_closed_substream_holds_connection
+
+/-! ## Wiring — what `Litep2p::new` hands over (coverage round `node`)
+
+Over the wiring model `Model/Node/Wiring.lean` (`Node.new c` = `Litep2p::new(ConfigBuilder…build())`), which is tied to
+the real `ConfigBuilder`/`Litep2p::new` by the `node` area: the adapter prints the ACTUAL registration record of a node built
+through the public API, the driver prints the model's, compared field by field on every run. -/
+namespace Litep2pVerif.Props.C09.Wiring
+open Litep2pVerif Litep2pVerif.Node
+
+/-- A configuration with every kind of protocol (used by the non-vacuity examples). -/
+def sample : Config :=
+  { keepAliveMs := some 600, limits := some (some 2, none), listen := [1, 2],
+    notif := [⟨"/n/a", 1024, "0102", ["/n/old"], 'a'⟩],
+    rr := [⟨"/r/a", 256, 800, ["/r/old"], none⟩, ⟨"/r/b", 64, 800, [], some 1⟩],
+    user := [⟨"/u/a", .varint none⟩], kad := [⟨[], none⟩], ping := some 1, identify := true, bitswap := true,
+    known := some [(0, [.listen 0, .closed, .quic, .wrongPeer 0, .noPeer 0])] }
+
+/-- For every configuration, every protocol `Litep2p::new` registers — user and libp2p alike — gets a `TransportService`
+that runs with exactly the keep-alive timeout the user configured (the default `KEEP_ALIVE_TIMEOUT` if none was). -/
+theorem configured_keep_alive_reaches_service (c : Config) (w : Wired) (h : Node.new c = .ok w) :
+    ∀ r ∈ w.regs, r.keepAliveMs = c.keepAliveMs.getD (1000 * Consts.KEEP_ALIVE_TIMEOUT_SECS) := by
+  intro r hr
+  obtain ⟨_, _, rfl⟩ := wire_ok h
+  exact keepAlive_of_mem_registrations _ hr
+
+example : ∃ w, Node.new sample = .ok w ∧ w.regs.length = 8 ∧ ∀ r ∈ w.regs, r.keepAliveMs = 600 :=
+  ⟨_, rfl, by decide, by decide⟩
+example : ∃ w, Node.new { sample with keepAliveMs := none } = .ok w ∧ ∀ r ∈ w.regs, r.keepAliveMs = 5000 :=
+  ⟨_, rfl, by decide⟩
+
+/-- Ping and identify are the registrations whose substreams do not keep a connection alive; notification,
+request-response and user protocols are registered with `SubstreamKeepAlive::Yes`. -/
+theorem keep_alive_flag_by_protocol_kind (c : Config) (w : Wired) (h : Node.new c = .ok w) :
+    (∀ p ∈ (build c).notif, ∃ r ∈ w.regs, r.name = p.name ∧ r.keepAlive = true) ∧
+    (∀ p ∈ (build c).rr, ∃ r ∈ w.regs, r.name = p.name ∧ r.keepAlive = true) ∧
+    (∀ p ∈ (build c).user, ∃ r ∈ w.regs, r.name = p.name ∧ r.keepAlive = true) ∧
+    (c.ping.isSome → ∃ r ∈ w.regs, r.name = pingName ∧ r.keepAlive = false) ∧
+    (c.identify = true → ∃ r ∈ w.regs, r.name = identifyName ∧ r.keepAlive = false) := by
+  obtain ⟨_, _, rfl⟩ := wire_ok h
+  refine ⟨fun p hp => ⟨_, notif_mem_registrations _ hp, rfl, rfl⟩, fun p hp => ⟨_, rr_mem_registrations _ hp, rfl, rfl⟩,
+    fun p hp => ⟨_, user_mem_registrations _ hp, rfl, rfl⟩, ?_, ?_⟩
+  · intro hp
+    refine ⟨⟨pingName, [], .identity Consts.PING_PAYLOAD_SIZE, (build c).keepAliveMs, false⟩, ?_, rfl, rfl⟩
+    cases hc : c.ping with
+    | none => simp [hc] at hp
+    | some v => simp [registrations, build, hc]
+  · intro hi
+    refine ⟨⟨identifyName, [], .varint (some Consts.IDENTIFY_PAYLOAD_SIZE), (build c).keepAliveMs, false⟩, ?_, rfl, rfl⟩
+    simp [registrations, build, hi]
+
+example : ∃ w, Node.new sample = .ok w ∧ (w.regs.filter (fun r => !r.keepAlive)).map (·.name) = [pingName, identifyName] :=
+  ⟨_, rfl, by decide⟩
+
+end Litep2pVerif.Props.C09.Wiring
+
+#print axioms Litep2pVerif.Props.C09.Wiring.configured_keep_alive_reaches_service
+#print axioms Litep2pVerif.Props.C09.Wiring.keep_alive_flag_by_protocol_kind
